@@ -122,6 +122,10 @@ package nilness
 
 //@ extern go/types.IsInterface(t types.Type) bool
 //@   pure
+//@ extern (*honnef.co/go/tools/go/ir.register).Type() types.Type
+//@   pure
+//@ extern golang.org/x/exp/typeparams.IsTypeParam(t types.Type) bool
+//@   pure
 // normalize only replaces "no information" by "may be nil" (and drops the inner component of
 // non-interfaces); it never makes a fact more precise
 //@ func normalize
@@ -178,4 +182,11 @@ package nilness
 //@   at call (*state).setOuter#3 assert [s2a]        allNonZero
 //@   at call (*state).setOuter#21 assert [typeassert] !v.CommaOk
 //@   at call (*state).setOuter#24 assert [tsdefault]  hasNil
-//@   at call (*state).setOuter#30 assert [select]     v.Blocking && len(v.States) == 1
+//@   at call (*state).setOuter#29 assert [select]     v.Blocking && len(v.States) == 1
+// Extract of a type switch: in the default branch, and in a clause listing several types, the
+// extracted value IS the interface operand (same dynamic type and value). In the default branch
+// what is recorded for it (arg2 of the call of set) must cover the operand's nilness, outer and
+// inner; in a matching clause only an extracted value of concrete type may take the operand's
+// inner nilness as its outer nilness.
+//@   at call (*state).set#17 assert [tsdefault_same] arg1 == v && (forall c int :: (c == 0 || c == 1) && gam(val(s.m, tuple.Tag).Outer, c) ==> gam(arg2.Outer, c)) && (forall c int :: (c == 0 || c == 1) && gam(val(s.m, tuple.Tag).Inner, c) ==> gam(arg2.Inner, c))
+//@   at call (*state).setOuter#28 assert [tscase_same] !types.IsInterface(v.Type()) || typeparams.IsTypeParam(v.Type())
